@@ -30,8 +30,10 @@ def _one(tree):
             for k, (path, tg) in enumerate(CT.assignments(tree)):
                 tags[(path, tg)] = 'v%d' % k
         nonexcl = None
-        for bits in itertools.product([0, 1], repeat=len(CT.ALL_PREDS)):
-            val = dict(zip(CT.ALL_PREDS, bits))
+        up = CT.used_preds(tree)
+        for bits in itertools.product([0, 1], repeat=len(up)):
+            val = dict.fromkeys(CT.ALL_PREDS, 0)
+            val.update(zip(up, bits))
             val.update({v: 0 for v in tags.values()})
             val['__regd'] = 0
             acts = CT.interp(IntOps, tree, val, tags)
